@@ -4,6 +4,7 @@ import (
 	"fmt"
 	"go/token"
 	"go/types"
+	"os"
 	"strings"
 
 	"golang.org/x/tools/go/ssa"
@@ -140,6 +141,31 @@ func runC09(c *Ctx) {
 	c.bodyBytesIndexRule("R09.10")
 	c.rule("R09.11", "everything written to a message writer is produced by encoding/json (or is a constant framing byte, or forwarded by a writer wrapper): replies are well-formed JSON for every message text")
 	c.writerBytesJSON("R09.11")
+	c.rule("R09.13", "an id that fails validation is never echoed: the id normaliser returns nil next to every error (callers answer with the returned id)")
+	if c.need("R09.13", "FN_norm", r.FnNorm != nil) {
+		n := 0
+		allInstrs(r.FnNorm, func(in ssa.Instruction) {
+			rt, ok := in.(*ssa.Return)
+			if !ok || len(rt.Results) != 2 {
+				return
+			}
+			errv := blockLocalValue(rt.Results[1])
+			if isNilConst(errv) {
+				return
+			}
+			n++
+			idv := blockLocalValue(rt.Results[0])
+			c.check(isNilConst(idv), "R09.13", fmt.Sprintf("%s: id returned with an error", fname(r.FnNorm)), c.ipos(rt), "nil",
+				"the normaliser hands the rejected id back next to its error: callers assign the result to the request before answering, so the -32700 reply echoes an invalid id (a bool, array or object) instead of null")
+		})
+		if n == 0 {
+			c.und("R09.13", fname(r.FnNorm)+": failing returns", "-", "no return with an error found")
+		}
+	}
+	c.rule("R09.14", "a callback handed to a message-writer provider writes on every path (the batch framing and the one-reply-per-request count rely on 'invoked means written')")
+	c.callbackAlwaysWrites("R09.14")
+	c.rule("R09.12", "every id-bearing WebSocket request gets its response: the frame executor never blocks on something only a finishing handler releases")
+	c.executorNeverWaitsForHandlers("R09.12")
 	c.ruleOpt("R09.9", "no reply bytes live in pooled memory that is handed back before they are written")
 	c.poolSharedRule("R09.9", nil)
 	c.rule("R09.6", "batch framing: one framing provider ('[' first, ',' later, only before real output), used by every emitter in the loop; ']' iff something was emitted; the loop never aborts the array")
@@ -1513,4 +1539,83 @@ func (c *Ctx) valueSites(at ssa.Instruction, v ssa.Value, depth int) []siteVal {
 		return out
 	}
 	return []siteVal{{At: at, Val: v}}
+}
+
+// callbackAlwaysWrites: R09.14. Writer providers (func(func(io.Writer))) frame their output at
+// the moment the callback is invoked: the batch provider writes "[" or "," first, the WebSocket
+// provider opens a message. A callback that can return without writing (an error emitter that
+// decides, inside the callback, not to answer notifications) leaves "[," / ",]" in a batch or an empty
+// message on the socket. Callbacks that only publish the writer (the lazy writer) are not judged here.
+func (c *Ctx) callbackAlwaysWrites(rule string) {
+	p := c.P
+	seen := map[*ssa.Function]bool{}
+	n := 0
+	for _, fn := range p.Funcs {
+		if pkgOf(fn) != p.Root.Pkg {
+			continue
+		}
+		allInstrsRaw(fn, func(in ssa.Instruction) {
+			ci, ok := in.(ssa.CallInstruction)
+			if !ok || ci.Common().IsInvoke() || len(ci.Common().Args) == 0 {
+				return
+			}
+			var cbArg ssa.Value
+			if isWriterProviderType(ci.Common().Value.Type()) && len(ci.Common().Args) == 1 {
+				cbArg = ci.Common().Args[0]
+			} else if c.isSuccessEmit(in) {
+				cbArg = ci.Common().Args[1]
+			} else {
+				return
+			}
+			if os.Getenv("JRP_DEBUG") == "cbw" {
+				fmt.Fprintf(os.Stderr, "cbw: site %s funcs=%d\n", c.ipos(in), len(c.funcsOf(cbArg)))
+			}
+			for _, cb := range c.funcsOf(cbArg) {
+				if seen[cb] || len(cb.Params) == 0 || len(cb.Blocks) == 0 {
+					continue
+				}
+				seen[cb] = true
+				var w ssa.Value = cb.Params[len(cb.Params)-1]
+				if !isNamed(w.Type(), "io", "Writer") {
+					continue
+				}
+				fromW := func(v ssa.Value) bool {
+					return c.dependsOn(v, func(x ssa.Value) bool { return x == w }, 0, map[ssa.Value]bool{})
+				}
+				publishes := false
+				isWrite := func(x ssa.Instruction) bool {
+					cx, ok := x.(ssa.CallInstruction)
+					if !ok {
+						return false
+					}
+					if cx.Common().IsInvoke() && fromW(cx.Common().Value) {
+						return true
+					}
+					for _, a := range cx.Common().Args {
+						if (isNamed(a.Type(), "io", "Writer") || isNamed(a.Type(), "io", "WriteCloser")) && fromW(a) {
+							return true
+						}
+					}
+					return false
+				}
+				allInstrsRaw(cb, func(x ssa.Instruction) {
+					if st, ok := x.(*ssa.Store); ok && isNamed(st.Val.Type(), "io", "Writer") && fromW(st.Val) {
+						if _, isLocal := st.Addr.(*ssa.Alloc); !isLocal {
+							publishes = true
+						}
+					}
+				})
+				if publishes {
+					continue
+				}
+				n++
+				construct := fmt.Sprintf("%s: writer callback", fname(cb))
+				ret := reachFromEntry(cb, isReturn, isWrite)
+				c.check(ret == nil, rule, construct, p.pos(cb.Pos()), "writes on every path", "this callback can return without writing although its provider has already framed the output (\"[\" or \",\" of a batch, an opened WebSocket message): a batch with a failing notification becomes [,{…}] or [{…},], which is not JSON")
+			}
+		})
+	}
+	if n == 0 {
+		c.und(rule, "writer callbacks", "-", "none found")
+	}
 }
